@@ -34,7 +34,7 @@ def ensure():
     lock = open(os.path.join(OUT, '.lock'), 'w')
     fcntl.flock(lock, fcntl.LOCK_EX)
     try:
-        h = hashlib.sha256(b'recipe-4')
+        h = hashlib.sha256(b'recipe-5')
         for f in sorted(os.listdir(SRC)):
             h.update(f.encode()); h.update(open(os.path.join(SRC, f), 'rb').read())
         stamp = os.path.join(OUT, 'stamp')
@@ -48,12 +48,15 @@ def ensure():
                 libs['%s_v%d_nodbg' % (fam, v)] = os.path.join(OUT, 'lib%s_v%d_nodbg.so' % (fam, v))      # the same version built without debug info
         for v in (0, 1):
             libs['ties_v%d' % v] = os.path.join(OUT, 'libties_v%d.so' % v)     # same-named different types in two translation units, anonymous types
+        for v in (0, 1):
+            libs['ktree_v%d' % v] = os.path.join(OUT, 'ktree_v%d' % v)           # a directory: fake kernel image plus one module, for abidw --linux-tree
         libs['twice_v0'] = os.path.join(OUT, 'libtwice_v0.so')                 # one source compiled twice with different -D flags
         libs['shapes_clang_v0'] = os.path.join(OUT, 'libshapes_clang_v0.so')
         libs['cxx_clang_v0'] = os.path.join(OUT, 'libcxx_clang_v0.so')
         libs['fnptr_nodebug_v0'] = os.path.join(OUT, 'libfnptr_nodebug_v0.so')
         libs['app'] = os.path.join(OUT, 'app')
-        if os.path.exists(stamp) and open(stamp).read() == want and all(os.path.exists(p) for p in libs.values()):
+        if os.path.exists(stamp) and open(stamp).read() == want and all(os.path.exists(p) for p in libs.values()) \
+                and all(os.path.exists(os.path.join(libs['ktree_v%d' % v], 'vmlinux')) for v in (0, 1)):
             return libs
         for fam, (src, lang, versions, extra) in FAMILIES.items():
             cc = 'gcc' if lang == 'c' else 'g++'
@@ -66,6 +69,10 @@ def ensure():
             for tu in ('ties_a', 'ties_b'):
                 _sh(['gcc', '-g', '-O0', '-fPIC', '-DV=%d' % v, '-c', os.path.join(SRC, tu + '.c'), '-o', os.path.join(OUT, '%s_v%d.o' % (tu, v))])
             _sh(['gcc', '-shared', '-Wl,-soname,libties.so.1', os.path.join(OUT, 'ties_a_v%d.o' % v), os.path.join(OUT, 'ties_b_v%d.o' % v), '-o', libs['ties_v%d' % v]])
+        for v in (0, 1):
+            os.makedirs(os.path.join(libs['ktree_v%d' % v], 'modules'), exist_ok=True)
+            _sh(['gcc', '-g', '-O0', '-nostdlib', '-static', '-fno-pie', '-no-pie', '-DV=%d' % v, os.path.join(SRC, 'fakekernel.c'), '-o', os.path.join(libs['ktree_v%d' % v], 'vmlinux')])
+            _sh(['gcc', '-g', '-O0', '-DV=%d' % v, '-c', os.path.join(SRC, 'fakemod.c'), '-o', os.path.join(libs['ktree_v%d' % v], 'modules', 'fakemod.ko')])
         for var in (1, 2):
             _sh(['gcc', '-g', '-O0', '-fPIC', '-DVARIANT=%d' % var, '-c', os.path.join(SRC, 'twice.c'), '-o', os.path.join(OUT, 'twice_%d.o' % var)])
         _sh(['gcc', '-shared', '-Wl,-soname,libtwice.so.1', os.path.join(OUT, 'twice_1.o'), os.path.join(OUT, 'twice_2.o'), '-o', libs['twice_v0']])
